@@ -38,6 +38,25 @@ class Ctx:
         return self.tier == "thorough"
 
 
+def selfvalidate(rep, pid):
+    """thorough tier: every rule of this property must fire on its broken variants and stay silent on its twins"""
+    import concurrent.futures as cf
+    from . import selftest
+    vs = [v for v in selftest.load_variants() if v["pid"] == pid]
+    if not vs:
+        rep.note("no self-validation variants registered for this property")
+        return
+    with cf.ThreadPoolExecutor(min(16, os.cpu_count() or 4)) as ex:
+        res = list(ex.map(selftest.run_variant, vs))
+    bad = [r for r in res if not r["ok"]]
+    rep.analysed["selfvalidation_variants"] = len(res)
+    rep.analysed["selfvalidation_broken_variants_detected"] = sum(1 for r in res if r["ok"] and r["expect"] != "silent")
+    rep.analysed["selfvalidation_twins_silent"] = sum(1 for r in res if r["ok"] and r["expect"] == "silent")
+    for r in bad:
+        rep.error(f"rule self-validation: variant '{r['name']}' expected {r['expect']}, got {r['got']}")
+    print(f"[{pid}] self-validation: {len(res)} variants, {len(bad)} wrong")
+
+
 def main(argv=None):
     ap = argparse.ArgumentParser()
     ap.add_argument("pid")
@@ -66,6 +85,12 @@ def main(argv=None):
     except Exception as e:  # a traceback must never look like a verdict
         traceback.print_exc()
         rep.error(f"internal error: {type(e).__name__}: {e}")
+    if a.tier == "thorough" and not a.replay and not os.environ.get("VERIF_NO_SELFTEST"):
+        try:
+            selfvalidate(rep, pid)
+        except Exception as e:
+            traceback.print_exc()
+            rep.error(f"rule self-validation crashed: {type(e).__name__}: {e}")
     try:
         return rep.finish()
     except Exception as e:
